@@ -1,10 +1,13 @@
-(* Properties/C16.v -- C16: SCSV save/read round trip is lossless; invalid input is refused.
-   Only statements; each is closed by `exact` of a lemma proved in Proofs_scsv.v. *)
+(* Properties/C16.v -- C16: SCSV save/read round trip is lossless; invalid schemas and data
+   are refused.  Only statements; each is closed by `exact` of a lemma of Proofs_scsv.v.
+   O : oracles  = the text layers (csv, str/int/float/complex, isidentifier, namedtuple);
+   y : yres     = PyYAML's loading of the header that save wrote (data, not modelled). *)
 From Coq Require Import String List ZArith Bool.
 From PV Require Import Model_scsv Proofs_scsv.
 Import ListNotations.
 Open Scope string_scope.
 
+(* any number of fields and rows, all five types; cells equal to the fill come back as the fill *)
 Theorem C16_roundtrip : forall (O : oracles) (s : schema) (y : yres) (data : list (list cell)),
   oracle_ok O ->
   validate_schema O s = Ok true ->
@@ -12,3 +15,140 @@ Theorem C16_roundtrip : forall (O : oracles) (s : schema) (y : yres) (data : lis
   header_faithful O s y = true ->
   read_back O s y data = Ok (names s, data).
 Proof. exact roundtrip_proof. Qed.
+
+(* what save hands to csv.writer: header row, then the rows of zip of the columns in which every
+   cell that the branch chain `substituted` selects (== fill, or NaN with a NaN fill) is the
+   missing marker *)
+Theorem C16_fill_cells_written_as_missing : forall O s data d m fs tfs,
+  (forall d, csv_legal d = true -> o_delim_err O d = None) ->
+  validate_schema O s = Ok true -> rep_facts O s data d m fs tfs ->
+  save O s data = Ok (map name_str fs :: zipn (nrows_of data) (out_cols O m tfs data)) /\
+  (forall t v c, substituted O t v c = Ok true -> out_text O m t v c = m).
+Proof. exact fill_cells_written_as_missing. Qed.
+
+(* each clause of `representable` (2 plain text, 3 text parses back, 4 identical to the fill
+   when == to it, 5 text differs from the missing marker, 6 no one-column '---' row, 7 one
+   column per field, 8 at least one row, 10 names accepted by namedtuple, 11 plain missing
+   marker, 12 CSV-legal delimiter) has a witness on which all other clauses hold and the round
+   trip fails; clause 1 (declared type) is implied by clause 3 *)
+Theorem C16_representable_needed :
+  (forall s data, representable_m toyO (fun _ => false) s data = representable toyO s data) /\
+  needed 2 (sch "," "-" [fld "a" "string" (Some (YStr "x"))]) [[CStr " lead"]] /\
+  needed 2 (sch "," "-" [fld "a" "string" (Some (YStr "x"))]) [[CStr ("a" ++ nl ++ "b")]] /\
+  needed 3 (sch "," "-" [fld "a" "float" (Some (YStr "NaN"))]) [[CFloat (FFin "abc")]] /\
+  needed 4 (sch "," "-" [fld "a" "float" (Some (YStr "0.0"))]) [[CFloat (FFin "-0.0")]] /\
+  needed 5 (sch "," "5" [fld "a" "integer" (Some (YStr "0"))]) [[CInt 5; CInt 6]] /\
+  needed 6 (sch "," "-" [fld "a" "string" (Some (YStr "x"))]) [[CStr "---"]] /\
+  needed 7 (sch "," "-" [fld "a" "string" (Some (YStr "x"))]) [[CStr "p"]; [CStr "q"]] /\
+  needed 8 (sch "," "-" [fld "a" "string" (Some (YStr "x"))]) [[]] /\
+  needed 10 (sch "," "-" [fld "_a" "string" (Some (YStr "x"))]) [[CStr "p"]] /\
+  needed 11 (sch "," " -" [fld "a" "string" (Some (YStr "x"))]) [[CStr "x"]] /\
+  needed 12 (sch ",," "-" [fld "a" "string" (Some (YStr "x"))]) [[CStr "p"]].
+Proof. exact representable_needed_proof. Qed.
+
+Theorem C16_declared_type_is_implied : forall O t d, cl_text_rt O t d = true -> cl_typed t d = true.
+Proof. exact typed_is_implied. Qed.
+
+(* _validate_scsv_schema returns False exactly on the documented violations: missing key, no
+   fields, delimiter equal to / contained in the missing marker, and - all earlier fields being
+   fine - a non-identifier name, an unknown type, a numeric/complex field without fill *)
+Theorem C16_validate_false_iff_violation : forall O s, validate_schema O s = Ok false <-> violation O s.
+Proof. exact validate_false_iff. Qed.
+
+(* ... and each of them makes save (any equal-length columns) and read raise SCSVError *)
+Theorem C16_invalid_schema_refused : forall O s,
+  violation O s ->
+  (forall data, equal_lengths data -> save O s data = Err SCSV) /\
+  (forall rows, read O (YLoaded s) rows = Err SCSV).
+Proof. exact invalid_schema_refused_proof. Qed.
+
+(* invalid data: columns of unequal length *)
+Theorem C16_unequal_lengths_refused : forall O s (c0 : list cell) rest,
+  Exists (fun c => length c <> length c0) rest -> save O s (c0 :: rest) = Err SCSV.
+Proof. exact unequal_lengths_refused. Qed.
+
+(* invalid data: wrong column count (too many / too few cells in a row whose cells are accepted) *)
+Theorem C16_too_many_columns_refused : forall O m tfs pre extra,
+  Forall2 (accepted O m) pre tfs -> extra <> [] -> save_row O m tfs (pre ++ extra)%list = Err SCSV.
+Proof. exact save_row_too_many. Qed.
+Theorem C16_too_few_columns_refused : forall O m row pre extra,
+  Forall2 (accepted O m) row pre -> extra <> [] -> save_row O m (pre ++ extra)%list row = Err SCSV.
+Proof. exact save_row_too_few. Qed.
+
+(* invalid data: a cell whose text does not parse as the declared type (ValueError) *)
+Theorem C16_unparsable_cell_refused : forall O m t v d,
+  parse_cell O t (pystr O d) m v = Err EValue -> save_cell O m t v d = Err SCSV.
+Proof. exact save_cell_unparsable. Qed.
+Theorem C16_bad_cell_fails_row : forall O m pre pre_tfs d t v post post_tfs e,
+  Forall2 (accepted O m) pre pre_tfs -> save_cell O m t v d = Err e ->
+  save_row O m (pre_tfs ++ (t, v) :: post_tfs)%list (pre ++ d :: post)%list = Err e.
+Proof. exact save_row_bad_cell. Qed.
+
+(* ... a refused row (earlier rows accepted) makes save_scsv raise that row's exception *)
+Theorem C16_invalid_data_refused : forall O s d m fs tfs c0 rest pre row post e,
+  validate_schema O s = Ok true -> sdelim s = Some d -> smissing s = Some m -> sfields s = Some fs ->
+  field_types fs = Ok tfs -> o_delim_err O d = None ->
+  Forall (fun c => length c = length c0) rest ->
+  zipn (length c0) (c0 :: rest) = (pre ++ row :: post)%list ->
+  (exists ys, map_res (save_row O m tfs) pre = Ok ys) ->
+  save_row O m tfs row = Err e ->
+  save O s (c0 :: rest) = Err e.
+Proof. exact invalid_data_refused_proof. Qed.
+
+(* completeness: save succeeds only for equal-length columns, a valid schema, and rows with one
+   accepted cell per field *)
+Theorem C16_save_ok_only_if : forall O s data rows, save O s data = Ok rows ->
+  equal_lengths data /\ validate_schema O s = Ok true /\
+  exists d m fs tfs, sdelim s = Some d /\ smissing s = Some m /\ sfields s = Some fs /\
+    field_types fs = Ok tfs /\ o_delim_err O d = None /\
+    Forall (fun row => Forall2 (accepted O m) row tfs) (zipn (nrows_of data) data).
+Proof. exact save_ok_only_if. Qed.
+
+(* read side: a header row that differs from the schema's names is refused with SCSVError *)
+Theorem C16_read_header_mismatch_refused : forall O s d m fs hdr body,
+  validate_schema O s = Ok true -> sdelim s = Some d -> smissing s = Some m -> sfields s = Some fs ->
+  o_delim_err O d = None -> list_str_eqb (map name_str fs) (map strip hdr) = false ->
+  read O (YLoaded s) (hdr :: body) = Err SCSV.
+Proof. exact read_header_mismatch. Qed.
+
+(* terse parser: shape of every result (always a *string* fill, '' when the spec has none) *)
+Theorem C16_terse_parse_spec : forall t s, parse_terse t = Ok s ->
+  exists d m fs, s = mkSchema (Some d) (Some m) (Some fs) /\ Forall terse_field_shape fs.
+Proof. exact terse_parse_shape. Qed.
+Theorem C16_terse_field_spec : forall name,
+  terse_field name "s" = Ok (mkField (Some (YStr name)) (Some "string") (Some (YStr ""))) /\
+  terse_field name "" = Ok (mkField (Some (YStr name)) (Some "string") (Some (YStr ""))) /\
+  terse_field name "i:999999" = Ok (mkField (Some (YStr name)) (Some "integer") (Some (YStr "999999"))) /\
+  terse_field name "f:NaN:%" = Ok (mkField (Some (YStr name)) (Some "float") (Some (YStr "NaN"))) /\
+  terse_field name "q" = Err SCSV.
+Proof. exact terse_field_spec. Qed.
+Example C16_terse_examples :
+  parse_terse "d,m-:colA(s)colB(s:N/A:...)colC()colD(i:999999)colE(f:NaN:%)"
+  = Ok (sch "," "-" [fld "colA" "string" (Some (YStr "")); fld "colB" "string" (Some (YStr "N/A"));
+                      fld "colC" "string" (Some (YStr "")); fld "colD" "integer" (Some (YStr "999999"));
+                      fld "colE" "float" (Some (YStr "NaN"))]) /\
+  parse_terse "d,m-:a(s)" = Ok none_schema /\
+  parse_terse "x" = Err SCSV /\ parse_terse "d,m:a(s)" = Err SCSV /\ parse_terse "dm-:a()" = Err SCSV /\
+  parse_terse "d,m-:a" = Err SCSV /\ parse_terse "d,m-:a(s))" = Err SCSV /\ parse_terse "d,m-:a(q)" = Err SCSV.
+Proof. exact terse_examples_proof. Qed.
+
+(* the open finding: the terse schema "d,m-:a(s)" (string field, fill '') is valid and its data
+   representable, but the header YAML loads has fill = null, which is not faithful; the model
+   then reads the missing cell back as "None" *)
+Theorem C16_header_unfaithful_refuted :
+  oracle_ok toyO /\ validate_schema toyO none_schema = Ok true /\
+  representable toyO none_schema [[CStr "x"; CStr ""; CStr "y"]] = true /\
+  header_faithful toyO none_schema none_loaded = false /\
+  read_back toyO none_schema none_loaded [[CStr "x"; CStr ""; CStr "y"]]
+    = Ok (["a"], [[CStr "x"; CStr "None"; CStr "y"]]).
+Proof. exact header_unfaithful_witness_proof. Qed.
+
+(* non-vacuity: the hypotheses of C16_roundtrip are satisfiable (four fields of four types, two
+   rows, the second row made of fill values, NaN fill included) *)
+Example C16_nonvacuous :
+  oracle_ok toyO /\ validate_schema toyO ex_schema = Ok true /\ representable toyO ex_schema ex_data = true /\
+  header_faithful toyO ex_schema (YLoaded ex_schema) = true /\
+  save toyO ex_schema ex_data =
+    Ok [["name"; "count"; "value"; "flag"]; ["B, b"; "5"; "1.5"; "True"]; ["-"; "-"; "-"; "False"]] /\
+  read_back toyO ex_schema (YLoaded ex_schema) ex_data = Ok (["name"; "count"; "value"; "flag"], ex_data).
+Proof. exact nonvacuous_proof. Qed.
